@@ -11,37 +11,32 @@ import (
 	"golang.org/x/mod/sumdb/tlog"
 )
 
-// ---- key pair double (unforgeable signatures: Verify accepts exactly what Sign produced) ----
+// ---- the key pair: a real note key (parsed by the real NewSigner/NewVerifier);
+// the symbolic engine abstracts Ed25519 itself: Sign hands out a distinct
+// constant per message and Verify accepts exactly those (unforgeability) ----
+
+const (
+	vSKeyText = "PRIVATE+KEY+sum.test+c089489d+AQcHBwcHBwcHBwcHBwcHBwcHBwcHBwcHBwcHBwcHBwcH"
+	vVKeyText = "sum.test+c089489d+AepKbGPinFIKvvVQexMuxfmVR3auvr57kkIe6mkURtIs"
+)
 
 type vKey struct {
 	name   string
 	hash   uint32
-	signed []vSigned
+	signer note.Signer
 }
 
-type vSigned struct{ msg, sig string }
-
-func (k *vKey) Name() string    { return k.name }
-func (k *vKey) KeyHash() uint32 { return k.hash }
-func (k *vKey) Sign(msg []byte) ([]byte, error) {
-	// deterministic: the same message always gets the same signature
-	for _, s := range k.signed {
-		if s.msg == string(msg) {
-			return []byte(s.sig), nil
-		}
+// vInitKey parses the key pair; the key is assumed well formed (its hash field
+// matches name and key: a fact about SHA-256 the abstraction cannot compute).
+func vInitKey(k *vKey) {
+	if k.signer != nil {
+		return
 	}
-	sig := make([]byte, 4)
-	n := len(k.signed) + 1
-	sig[0], sig[1], sig[2], sig[3] = 0xa0, byte(n>>8), byte(n), 0x5a
-	k.signed = append(k.signed, vSigned{string(msg), string(sig)})
-	return sig, nil
-}
-func (k *vKey) Verify(msg, sig []byte) bool {
-	ok := false
-	for _, s := range k.signed {
-		ok = vOr(ok, vAnd(s.msg == string(msg), s.sig == string(sig)))
-	}
-	return ok
+	s, err := note.NewSigner(vSKeyText)
+	vAssume(err == nil)
+	_, err = note.NewVerifier(vVKeyText)
+	vAssume(err == nil)
+	k.signer = s
 }
 
 // ---- an honest log ----
@@ -90,18 +85,15 @@ func vBuildLog(name string, n, shared int, key *vKey) *vLogT {
 			panic(err)
 		}
 		tree := tlog.Tree{N: int64(i + 1), Hash: th}
-		msg, err := note.Sign(&note.Note{Text: string(tlog.FormatTree(tree))}, key)
-		if err != nil {
-			panic(err)
-		}
-		l.heads[tree.N] = msg
+		l.heads[tree.N] = vSignTree(tree, key)
 		l.trees[tree.N] = tree
 	}
 	return l
 }
 
 func vSignTree(tree tlog.Tree, key *vKey) []byte {
-	msg, err := note.Sign(&note.Note{Text: string(tlog.FormatTree(tree))}, key)
+	vInitKey(key)
+	msg, err := note.Sign(&note.Note{Text: string(tlog.FormatTree(tree))}, key.signer)
 	if err != nil {
 		panic(err)
 	}
@@ -129,6 +121,11 @@ type vWrite struct {
 type vOps struct {
 	honest    *vLogT // tiles served honestly come from this log (nil: every tile byte is free)
 	freeTiles bool
+	// dropPartial: the server no longer has partial tiles (404); the full tile it
+	// serves instead has the true hashes in the part the client asked for and
+	// arbitrary bytes after it
+	dropPartial  bool
+	lastPartialW int
 	config    []byte // the shared <name>/latest file
 	cache     map[string][]byte
 	lookup    func(path string) ([]byte, error)
@@ -160,6 +157,25 @@ func (o *vOps) ReadRemote(path string) ([]byte, error) {
 	if err != nil {
 		return nil, err
 	}
+	if o.dropPartial && o.honest != nil {
+		if t.W < 1<<uint(t.H) {
+			o.lastPartialW = t.W
+			return nil, errVNoFile
+		}
+		if o.lastPartialW > 0 {
+			part := t
+			part.W = o.lastPartialW
+			o.lastPartialW = 0
+			if d, ok := o.honest.tile(part); ok {
+				d = append([]byte{}, d...)
+				for j := part.W; j < t.W; j++ {
+					h := vHash("tail")
+					d = append(d, h[:]...)
+				}
+				return d, nil
+			}
+		}
+	}
 	if o.freeTiles {
 		var d []byte
 		for j := 0; j < t.W; j++ {
@@ -181,6 +197,9 @@ func (o *vOps) ReadConfig(file string) ([]byte, error) {
 	if strings.HasSuffix(file, "/latest") {
 		o.lastRead = o.config
 		return o.config, nil
+	}
+	if file == "key" {
+		return []byte(vVKeyText + "\n"), nil
 	}
 	return nil, errVNoFile
 }
@@ -217,26 +236,13 @@ func (o *vOps) WriteCache(file string, data []byte) {
 func (o *vOps) Log(msg string)           {}
 func (o *vOps) SecurityError(msg string) { o.security = append(o.security, msg) }
 
-// vNewClient builds a client the way initWork does, with the verifier double
-// in place of note.NewVerifier (key parsing and real Ed25519 are outside the claim).
+// vNewClient creates a client and runs its real initialisation (key parsing,
+// reading and merging the stored head).
 func vNewClient(ops *vOps, key *vKey, height int) (*Client, error) {
+	vInitKey(key)
 	c := NewClient(ops)
-	c.initOnce.Do(func() {})
-	c.tileReader.c = c
-	c.tileHeight = height
-	c.tileSaved = make(map[tlog.Tile]bool)
-	c.verifiers = note.VerifierList(key)
-	c.name = key.Name()
-	h, err := tlog.TreeHash(0, nil)
-	if err != nil {
-		return nil, err
-	}
-	c.latest.Hash = h
-	data, err := ops.ReadConfig(c.name + "/latest")
-	if err != nil {
-		return nil, err
-	}
-	if err := c.mergeLatest(data); err != nil {
+	c.SetTileHeight(height)
+	if err := c.init(); err != nil {
 		return nil, err
 	}
 	return c, nil
